@@ -11,3 +11,26 @@ func VH_C07_Deserialize() {
 	m, err := Deserialize(b)
 	vAssert(err != nil || m != nil, "Deserialize returned nil message without error")
 }
+
+// VH_C07_RecvLoopStep: one iteration of the live data-phase receive loop from
+// an arbitrary in-range window state, for an arbitrary packet of length
+// 0..maxlen (all types, all field values - includes all 256 ACK/NACK values):
+// no panic, and the window bookkeeping stays inside the sequence space.
+func VH_C07_RecvLoopStep() {
+	n := vU8("n")
+	vAssume(n >= 1 && n <= 254)
+	l := vIntRange("len", 0, vParam("maxlen", 5))
+	raw := vBytes("b", l)
+	w := &vWire{in: [][]byte{raw}}
+	g := vConn(n, w)
+	q := g.sendQueue
+	q.sequenceBase, q.sequenceTop = vU8("base"), vU8("top")
+	vAssume(q.sequenceBase < q.cfg.s && q.sequenceTop < q.cfg.s && q.size() <= n)
+	g.recvSeq = vU8("recvSeq")
+	vAssume(g.recvSeq < g.cfg.s)
+	vReach("loop-step")
+	_ = g.receivePacketsForever()
+	vInv(q, n, "receive loop")
+	vAssert(g.recvSeq < g.cfg.s, "receive loop: expected sequence number left the sequence space")
+	vAssert(g.cfg.s == n+1 && g.cfg.n == n, "receive loop changed the window configuration")
+}
